@@ -85,3 +85,6 @@ TS_MAPS = ['arm_to_success_count', 'arm_to_fail_count']
 arm_change_contracts('_ThompsonSampling', TS_MAPS + ['arm_to_expectation'],
                      'val(self.arm_to_success_count, arm) == 1 and val(self.arm_to_fail_count, arm) == 1',
                      extra_modifies=['self.binarizer'], other_maps=TS_MAPS, props='C01 C08 C14')
+
+from specs.base_mab import warm_start_contracts
+warm_start_contracts('thompson', '_ThompsonSampling', TS_MAPS)
